@@ -332,6 +332,24 @@ func c04(r *ev.Run, replay string) {
 	} else {
 		r.Incomplete("V1 single-field value alphabets")
 	}
+	if r.Thorough() {
+		var npair int64
+		for _, base := range append(c04Bases(), sel.bases...) {
+			if r.Expired() {
+				r.Incomplete("V2 adjacent-field-pair variations")
+				break
+			}
+			corpus.PairVariations(base, func(t *wire.N) []wire.Mark { _, m := wire.Encode(t); return m }, func(t *wire.N, what string) {
+				npair++
+				c04One(r, t, what)
+			})
+		}
+		fields += npair
+		r.Set("adjacent_pair_variations", npair)
+		if !r.Expired() {
+			r.Completed("V2 every pair of fields adjacent on the wire of every base message set to {0, all-ones, pattern} x {0, all-ones, pattern}")
+		}
+	}
 	// two-step histories: parse A, parse B, observe A again - all ordered pairs of the base messages
 	var pairs int64
 	bases := c04Bases()
